@@ -20,6 +20,40 @@ from .common import TRUSTED_BASE, cfg_nodes_for, subst_single_assign, where
 from .keyterm import KeyTerms, branches
 
 
+def check_run_argument_binding(A, R: Report, rid: str):
+    task = A.cls('Task')
+    fra = task.lookup('_get_run_arguments')
+    loops = [n for n in A.typer.own_nodes(fra) if isinstance(n, ast.For) and 'signature' in src(n.iter) and 'parameters' in src(n.iter)]
+    if not loops:
+        R.undecided(rid, 'Task._get_run_arguments', 'signature loop not recognised', where=where(fra))
+    else:
+        lp = loops[0]
+        argname = src(lp.target.elts[0]) if isinstance(lp.target, ast.Tuple) else src(lp.target)
+        subs = [n for n in ast.walk(lp) if isinstance(n, ast.Subscript) and isinstance(n.ctx, ast.Load) and src(n.value) in ('self.input_tasks', 'self.parameters', 'self.params')]
+        gets = [n for n in ast.walk(lp) if isinstance(n, ast.Call) and isinstance(n.func, ast.Attribute) and n.func.attr == 'get' and src(n.func.value) in ('self.input_tasks', 'self.parameters', 'self.params')]
+        by_name = bool(subs or gets) and all(src(s.slice) == argname for s in subs) and all(g.args and src(g.args[0]) == argname for g in gets)
+        appends = [n for n in ast.walk(lp) if isinstance(n, ast.Call) and isinstance(n.func, ast.Attribute) and n.func.attr == 'append']
+        locals_ok = True
+        for a in appends:
+            names = {x.id for x in ast.walk(a.args[0]) if isinstance(x, ast.Name)}
+            for nm in names - {'NO_VALUE', argname}:
+                defs = [d for d in ast.walk(lp) if isinstance(d, ast.Assign) and any(src(t) == nm for t in d.targets)]
+                if not defs:
+                    locals_ok = False
+                for d in defs:
+                    refs = {x.id for x in ast.walk(d.value) if isinstance(x, ast.Name)} - {'NO_VALUE', 'self', 'isinstance', 'Task', argname, nm}
+                    if refs:
+                        locals_ok = False
+                    # values may only be read from the task's input registry and parameter registry
+                    for x in ast.walk(d.value):
+                        if isinstance(x, ast.Attribute) and isinstance(x.value, ast.Name) and x.value.id == 'self' and x.attr not in ('input_tasks', 'parameters', 'params'):
+                            locals_ok = False
+        in_order = src(lp.iter).endswith('.parameters.items()') or src(lp.iter).endswith('.parameters')
+        R.check(by_name and bool(appends) and locals_ok and in_order, rid, 'Task._get_run_arguments', key_of('by-name', by_name, locals_ok, in_order), f'lookups keyed by `{argname}`, appended in signature order',
+                'run() arguments are not bound by their own name (positional or foreign lookup): a value of another input/parameter would be passed', where=where(fra, lp))
+
+
+
 def run(A, R: Report, thorough: bool):
     R.explanation = ('A result can only be foreign if a stored file is loaded although it was not written for this computation, two computations share a location, two computations share a task '
                      'object, or a task reads values that are not its own. Each has a structural gate decided here: control dependence of the load; dependency facts of the symbolic key term; '
@@ -170,31 +204,7 @@ def run(A, R: Report, thorough: bool):
 
     # ---- R01.5
     R.rule('R01.5', 'every run() argument is looked up under its own name in input_tasks / parameters', floor=1)
-    fra = task.lookup('_get_run_arguments')
-    loops = [n for n in A.typer.own_nodes(fra) if isinstance(n, ast.For) and 'signature' in src(n.iter) and 'parameters' in src(n.iter)]
-    if not loops:
-        R.undecided('R01.5', 'Task._get_run_arguments', 'signature loop not recognised', where=where(fra))
-    else:
-        lp = loops[0]
-        argname = src(lp.target.elts[0]) if isinstance(lp.target, ast.Tuple) else src(lp.target)
-        subs = [n for n in ast.walk(lp) if isinstance(n, ast.Subscript) and isinstance(n.ctx, ast.Load) and src(n.value) in ('self.input_tasks', 'self.parameters', 'self.params')]
-        gets = [n for n in ast.walk(lp) if isinstance(n, ast.Call) and isinstance(n.func, ast.Attribute) and n.func.attr == 'get' and src(n.func.value) in ('self.input_tasks', 'self.parameters', 'self.params')]
-        by_name = bool(subs or gets) and all(src(s.slice) == argname for s in subs) and all(g.args and src(g.args[0]) == argname for g in gets)
-        appends = [n for n in ast.walk(lp) if isinstance(n, ast.Call) and isinstance(n.func, ast.Attribute) and n.func.attr == 'append']
-        locals_ok = True
-        for a in appends:
-            names = {x.id for x in ast.walk(a.args[0]) if isinstance(x, ast.Name)}
-            for nm in names - {'NO_VALUE', argname}:
-                defs = [d for d in ast.walk(lp) if isinstance(d, ast.Assign) and any(src(t) == nm for t in d.targets)]
-                if not defs:
-                    locals_ok = False
-                for d in defs:
-                    refs = {x.id for x in ast.walk(d.value) if isinstance(x, ast.Name)} - {'NO_VALUE', 'self', 'isinstance', 'Task', argname, nm}
-                    if refs:
-                        locals_ok = False
-        in_order = src(lp.iter).endswith('.parameters.items()') or src(lp.iter).endswith('.parameters')
-        R.check(by_name and bool(appends) and locals_ok and in_order, 'R01.5', 'Task._get_run_arguments', key_of('by-name', by_name, locals_ok, in_order), f'lookups keyed by `{argname}`, appended in signature order',
-                'run() arguments are not bound by their own name (positional or foreign lookup): a value of another input/parameter would be passed', where=where(fra, lp))
+    check_run_argument_binding(A, R, 'R01.5')
 
     # ---- R01.6 sharing keys
     R.rule('R01.6', 'in parameter mode the first pass shares no task objects (or shares under a key that covers the namespace)', floor=1)
